@@ -27,9 +27,10 @@ from jinns.parameters import ParamsDict
 from sim.core import Violation, HarnessError, Unsupported
 from sim import trainsim as ts, gensim
 
-CALL_KINDS = ["E", "J", "C", "G", "H", "B", "K"]
-DESCR = {"E": "evaluate eager", "J": "evaluate under jax.jit", "C": "loss.__call__ eager", "G": "value_and_grad eager (primal)",
-         "H": "value_and_grad under jit (primal)", "B": "get_batch eager", "K": "get_batch under jit"}
+CALL_KINDS = ["E", "J", "j", "C", "G", "H", "B", "K"]
+DESCR = {"E": "evaluate eager", "J": "evaluate under jax.jit (loss passed as an argument, as solve does)",
+         "j": "evaluate under jax.jit (loss closed over)", "C": "loss.__call__ eager", "G": "value_and_grad eager (primal)",
+         "H": "value_and_grad under jit (primal, loss passed as an argument)", "B": "get_batch eager", "K": "get_batch under jit"}
 
 
 class SysPde1(PDEStatio):
@@ -162,9 +163,10 @@ def gen_program(rng, r, tier, float_mode):
     prog["float"] = float_mode
     for k in ("segments", "driver", "verbose", "tracked", "faults", "opt"):
         prog.pop(k, None)
-    prog["draws"] = rng.randint(0, 5)
+    prog["draws"] = rng.choice([0, 0, 0, 1, 2, 3, 4, 5])
     n = rng.randint(3, 12 if tier == "quick" else 24)
-    palette = rng.choice([CALL_KINDS, ["E", "J", "B"], ["E", "G", "H"], ["C", "J", "K", "B"], ["E", "E", "J", "J"], ["G", "H", "K"]])
+    palette = rng.choice([CALL_KINDS, ["E", "J", "B"], ["E", "G", "H"], ["C", "J", "K", "B"], ["E", "E", "J", "J"], ["G", "H", "K"],
+                          ["E", "j", "J"], ["B", "K"]])
     prog["calls"] = [rng.choice(palette) for _ in range(n)]
     return prog
 
@@ -184,26 +186,31 @@ def run(program, ctx, prop="C20"):
     def fail(inv, what, details, step):
         raise Violation(prop, inv, f"{prop}.{inv}/{eq}/{parts or '-'}/{what}", details, step)
 
-    jit_eval = jax.jit(lambda p, b: loss.evaluate(p, b))
-    jit_vg = jax.jit(lambda p, b: jax.value_and_grad(lambda pp, bb: loss(pp, bb), has_aux=True)(p, b)[0])
+    jit_eval_closure = jax.jit(lambda p, b: loss.evaluate(p, b))
+    jit_eval = jax.jit(lambda l, p, b: l.evaluate(p, b))
+    jit_vg = jax.jit(lambda l, p, b: jax.value_and_grad(lambda pp, bb: l(pp, bb), has_aux=True)(p, b)[0])
     jit_gb = {}
     answers = {}
     gb_answers = {}
     before = {k: describe(v) for k, v in objs.items()}
     ref_total = None
-    for step, kind in enumerate(program["calls"]):
+    # every run starts and ends with one eager and one jitted batch draw on the reached generator states
+    calls = ["B", "K"] + list(program["calls"]) + ["K", "B"]
+    for step, kind in enumerate(calls):
         ctx.sim_time += 1
-        if kind in ("E", "J", "C", "G", "H"):
+        if kind in ("E", "J", "j", "C", "G", "H"):
             if kind == "E":
                 tot, terms = loss.evaluate(params, batch)
             elif kind == "C":
                 tot, terms = loss(params, batch)
             elif kind == "J":
-                tot, terms = jit_eval(params, batch)
+                tot, terms = jit_eval(loss, params, batch)
+            elif kind == "j":
+                tot, terms = jit_eval_closure(params, batch)
             elif kind == "G":
                 (tot, terms), _ = jax.value_and_grad(lambda pp, bb: loss(pp, bb), has_aux=True)(params, batch)
             else:
-                tot, terms = jit_vg(params, batch)
+                tot, terms = jit_vg(loss, params, batch)
             ans = (np.asarray(tot), {k: np.asarray(v) for k, v in terms.items()})
             if kind in answers:
                 prev = answers[kind]
@@ -246,9 +253,9 @@ def run(program, ctx, prop="C20"):
                 d = first_difference(before[k], after[k], k)
                 fail("argument-modified", f"{k}/{DESCR[kind]}", {"where": str(d[0]) if d else k, "before": str(d[1])[:200] if d else "", "after": str(d[2])[:200] if d else ""}, step)
         ctx.count("calls." + kind)
-        ctx.state((eq, parts, kind, tuple(sorted(set(program["calls"][:step])))[:4]))
+        ctx.state((eq, parts, kind, tuple(sorted(set(calls[:step])))[:4]))
     kinds = set(program["calls"])
-    ctx.nontrivial = bool(kinds & {"J", "H", "K"}) and bool(kinds & {"E", "C", "G", "B"}) and len(program["calls"]) >= 3
+    ctx.nontrivial = bool(kinds & {"J", "j", "H"}) and bool(kinds & {"E", "C", "G"}) and len(program["calls"]) >= 3
     if parts:
         ctx.count("probe.batch_with_" + parts)
     ctx.key = [eq, parts, program["calls"], program["data"], program["net"]["key"]]
